@@ -102,6 +102,7 @@ RULE["C12"] += "; standalone networks also with work amounts x 1000-3000 (schedu
 RULE["C16"] += "; every 40th case writes and reads a never-simulated FS chain of 1000-1200 tasks"
 RULE["C18"] += "; on logs longer than 100 steps half of the index lists hold 65-130 steps"
 RULE["C19"] += "; 8 % of the encoder logs have 255-1500 records"
+RULE["C19"] += "; 30 % of the set_last_datetime checks use a date WITH a tzinfo that has daylight-saving time (hand-written rule zone), every date check also demands that the chart row of a task WORKING at the last step only starts on the given date"
 RULE["C20"] += "; every 12th case uses a sub-project that runs for 257 and more steps"
 RULE["C01"] += "; every declared dependency is checked to be present in the built model (both lists)"
 RULE["C06"] += "; pair clause also for a single-task flat component that lies nowhere although a workplace of its task had room throughout the pass"
@@ -126,7 +127,7 @@ FLOORS = {
     "C15": [("C15.memory_resumes", 1000, 60000), ("C15.json_resumes", 200, 10000), ("C15.pauses_inside_run_with_working_task", 200, 20000)],
     "C16": [("C16.roundtrip_comparisons", 300, 8000), ("C16.reference_checks", 10000, 300000), ("C16.resimulations", 50, 1500), ("C16.param_observed_relevant", 15, 400), ("C16.second_reads_of_same_file", 200, 6000), ("C16.second_writes", 200, 6000)],
     "C17": [("C17.faults_raised_and_propagated", 1000, 100000), ("C17.structure_checks", 1000, 100000), ("C17.forward_comparisons", 1000, 100000), ("C17.fs_order_checks", 150, 3000), ("C17.backward_is_first_run", 150, 3000), ("C17.faults_that_are_not_Exceptions", 100, 10000)],
-    "C19": [("C19.encoder_checks", 30000, 1000000), ("C19.query_checks", 3000, 80000), ("C19.row_checks", 1000, 30000), ("C19.date_checks", 1000, 30000), ("C19.exhaustive_chunks", 28, 36), ("C19.encoder_checks_after_in_place_change", 3000, 80000), ("C19.query_rounds_after_in_place_change", 300, 8000)],
+    "C19": [("C19.encoder_checks", 30000, 1000000), ("C19.query_checks", 3000, 80000), ("C19.row_checks", 1000, 30000), ("C19.date_checks", 1000, 30000), ("C19.exhaustive_chunks", 28, 36), ("C19.encoder_checks_after_in_place_change", 3000, 80000), ("C19.query_rounds_after_in_place_change", 300, 8000), ("C19.date_checks.time_zone_with_dst", 200, 5000)],
     "C20": [("C20.parent_runs", 200, 5000), ("C20.configurations", 300, 8000), ("C20.refusal_checks", 60, 1500), ("C20.result_path_used_again", 100, 3000), ("C20.parents_through_json", 40, 1000)],
     "C06": [("C06.pairs_examined", 1000, 30000), ("C06.none_checks", 1000, 30000)],
     "C07": [("C07.resource_step_checks", 20000, 500000), ("json_resumed_runs", 15, 400), ("resimulated_runs", 40, 1000)],
